@@ -3,6 +3,7 @@ package main
 import (
 	"bytes"
 	"fmt"
+	"os"
 	"runtime"
 	"strconv"
 	"strings"
@@ -203,14 +204,22 @@ func runC15(env *Env) {
 	if env.Thorough() {
 		n, reps = 300, 20
 	}
+	raceRun := os.Getenv("WV_C15_RACE") != ""
+	if raceRun {
+		// under the race detector (10-20x slower): a handful of pairs, no pinned children (they would be
+		// uninstrumented copies of this binary doing the same)
+		n, reps = 5, 2
+	}
 	rng := wvlib.NewRng(env.Seed)
 	comps := []Comp{{"none", 0}, {"gzip", 1}, {"brotli", 1}}
 	cases := make([]*C15Case, n)
 	for i := range cases {
 		cases[i] = &C15Case{PairCase: PairCase{Seed: rng.Next(), Opts: wvlib.PairOpts{MaxFiles: 5, SmallOnly: i%3 != 0, Symlinks: true}, Comp: comps[i%3]}, Ties: i%4 == 1, Repeats: reps}
 	}
-	c15StartPinned(env)
-	defer c15StopPinned()
+	if !raceRun {
+		c15StartPinned(env)
+		defer c15StopPinned()
+	}
 	models := startModels(env)
 	// GOMAXPROCS is process-wide: run cases one at a time
 	for i, c := range cases {
